@@ -520,14 +520,36 @@ def run(ctx):
     wexes = session.build_exes({c: (c, 'wkd_drv.cpp', []) for c in hl2})
     sexes = session.build_exes({c: (c, 'scheme_drv.cpp', []) for c in hl2})
     layers += [(m, 'wkd_drv.cpp', hl2, wexes, [0, 9, 13]) for m in ('c11', 'c13', 'c14')] + [('c16', 'scheme_drv.cpp', hl2, sexes, [0, 5])]
+    # the layers run side by side, one process each (every process forks its own shard pool)
+    import multiprocessing as mp
+
+    def layer_proc(name, cfgl, ex, only, conn):
+        try:
+            mod = importlib.import_module(name)
+            sub = harness.Ctx(name.upper(), ctx.tier, ctx.seed)
+            session.run_shards(sub, mod.worker, 16, ex, {'cfgs': cfgl}, only=only)
+            conn.send({'violations': [v for v in sub.violations if ':diff:' in v['key'] or ':san:' in v['key']], 'lines': sub.extra.get('differential_lines_compared', 1), 'error': None})
+        except Exception as e:
+            conn.send({'violations': [], 'lines': 0, 'error': '%s: %s' % (name, str(e)[-600:])})
+        conn.close()
+    procs = []
     for name, drv, cfgl, ex, only in layers:
-        mod = importlib.import_module(name)
-        sub = harness.Ctx(name.upper(), ctx.tier, ctx.seed)
-        session.run_shards(sub, mod.worker, 16, ex, {'cfgs': cfgl}, only=only if ctx.quick else (None if name in ('c04', 'c05', 'c06') else [0, 3, 6, 9, 12, 15]))
-        for v in sub.violations:
-            if ':diff:' in v['key'] or ':san:' in v['key']:
-                ctx.violation('higher-layer:%s' % v['key'].split(':', 1)[1], v['what'], v['replay'])
-        ctx.event('higher-layer-differential:%s' % name.upper(), '/'.join(cfgl), n=max(1, sub.extra.get('differential_lines_compared', 1)))
+        pc, cc = mp.Pipe(False)
+        sel = only if ctx.quick else (None if name in ('c04', 'c05', 'c06') else [0, 3, 6, 9, 12, 15])
+        pr = mp.get_context('fork').Process(target=layer_proc, args=(name, cfgl, ex, sel, cc))
+        pr.start()
+        procs.append((name, cfgl, pr, pc))
+    for name, cfgl, pr, pc in procs:
+        if not pc.poll(1800 if ctx.quick else 7200):
+            pr.kill()
+            raise harness.HarnessError('higher-layer differential of %s did not finish in time (inconclusive)' % name)
+        res = pc.recv()
+        pr.join(30)
+        if res['error']:
+            raise harness.HarnessError('higher-layer differential: %s' % res['error'])
+        for v in res['violations']:
+            ctx.violation('higher-layer:%s' % v['key'].split(':', 1)[1], v['what'], v['replay'])
+        ctx.event('higher-layer-differential:%s' % name.upper(), '/'.join(cfgl), n=max(1, res['lines']))
     ctx.extra['configurations_executed'] = ['x86-64 BMI2/ADX asm (dispatch + direct)', 'x86-64 baseline asm (dispatch pointers swapped + direct)', 'portable C++ 64-bit words', 'portable C++ 32-bit words',
                                             'AArch64 asm under oracle/a64.py', 'ARMv6-M asm under the source-level interpreter oracle/thumb.py (macro expansion + Thumb-1 semantics, three readings of low-register MOV)']
     ctx.extra['configurations_not_executed'] = []
